@@ -63,4 +63,31 @@ theorem selections_prefix (p : Policy) (t : Nat) : ∀ (hist : List (List Outcom
     have ih := selections_prefix p t rest (round p t st os) k (by simpa using h)
     simpa [selections, run] using ih
 
+/-! ## a whole history in small steps: per round, the jobs finish in an arbitrary order, then `finish` -/
+
+/-- one round in small steps: `ord` is the order in which the clients' jobs finish -/
+def roundSmall (p : Policy) (t : Nat) {n : Nat} (st : State) (r : (Fin n → Outcome) × List (Fin n)) : State :=
+  finish p t (runJobs p t st (r.2.map (fun i => (i.val, r.1 i))))
+
+def runSmall (p : Policy) (t : Nat) {n : Nat} (st : State) (hist : List ((Fin n → Outcome) × List (Fin n))) : State :=
+  hist.foldl (roundSmall p t) st
+
+theorem round_rings_length (p : Policy) (t : Nat) {n : Nat} (st : State) (hlen : st.rings.length = n) (f : Fin n → Outcome) :
+    (round p t st (List.ofFn f)).rings.length = n := by
+  simp [round, finish, hlen]
+
+theorem runSmall_eq_run (p : Policy) (t : Nat) {n : Nat} :
+    ∀ (hist : List ((Fin n → Outcome) × List (Fin n))) (st : State), st.rings.length = n →
+      (∀ r ∈ hist, ∀ i : Fin n, i ∈ r.2) →
+      runSmall p t st hist = run p t st (hist.map (fun r => List.ofFn r.1))
+  | [], _, _, _ => rfl
+  | r :: rest, st, hlen, hall => by
+    have h1 : roundSmall p t st r = round p t st (List.ofFn r.1) :=
+      jobs_then_finish p t r.1 r.2 (hall r (by simp)) st hlen
+    have ih := runSmall_eq_run p t rest (round p t st (List.ofFn r.1)) (round_rings_length p t st hlen r.1)
+      (fun q hq => hall q (by simp [hq]))
+    simp only [runSmall, run, List.foldl_cons, List.map_cons] at ih ⊢
+    rw [h1]
+    exact ih
+
 end SSV.ClientGroups
